@@ -2,7 +2,10 @@
 
 Witness: {"spec": tree spec, "ra": bool (root_attach first), "marker": step name of the head marker}.
 The head flags that boyd_split relies on are read from the head-marked tree (they are the *input*
-of the contract judged here; head marking itself is property C15).
+of the clauses matches_ref_raise and split_blocks; head marking itself is property C15).  The
+clauses continuous, tokens_labels and continuous_unchanged are statements about the whole
+documented pipeline "head marking, boyd_split, raising" and are judged for whatever the head
+marker produced.
 
 Clauses
   continuous            after the pipeline every node covers a contiguous token span
@@ -21,7 +24,11 @@ from bounded import lib_transform as L
 
 RULE = ("all tree shapes with n<=N tokens x every head assignment (one HD child per constituent, "
         "all other edges '--') for the NeGra heuristic, each with and without root_attach; the same "
-        "shapes with one label decoration for the two rule presets; a second edge encoding of the "
+        "shapes with one label decoration for the two rule presets; for each rule preset every "
+        "category of the preset (priority-list rules, empty left-to-right and empty right-to-left "
+        "rules, one category without rule) as the label of all discontinuous constituents of every "
+        "discontinuous shape with n<=C tokens (a sample of K categories per shape for n=C+1), "
+        "children labelled with categories / POS tags the rules mention; a second edge encoding of the "
         "heads (rightmost NK / leftmost default) on a sample; seeded random trees to n=10 with unary "
         "nodes, random HD/NK/-- edges and shuffled stored child order.  Non-trivial = distinct "
         "(tree, heads) whose input to boyd_split is discontinuous")
@@ -31,6 +38,9 @@ def BOUNDS(ctx):
     return {"exhaustive_shapes_n": 5 if ctx.quick else 6,
             "head_assignments": "all (HD encoding)",
             "nk_encoding_sample_p": 0.15 if ctx.quick else 0.1,
+            "preset_categories_shapes_n": 4 if ctx.quick else 5,
+            "preset_categories_sampled_n": 5 if ctx.quick else 6,
+            "preset_categories_sample_k": 3 if ctx.quick else 2,
             "random_trees": 150 if ctx.quick else 2500, "random_max_n": 10}
 
 
@@ -43,8 +53,9 @@ SITES = {
 }
 
 
-def _prepare(ctx, w):
-    """build, [root_attach], head marking.  Returns (tree, spec of the head-marked tree)"""
+def _prepare(ctx, w, need_heads=True):
+    """build, [root_attach], head marking.  Returns (tree, spec of the head-marked tree).
+    need_heads: the clause takes the head flags as its input (one head child per constituent)"""
     trees = ctx.mod("trees")
     spec = L.uidify(w["spec"])
     t = tg.build(spec, trees)
@@ -52,13 +63,15 @@ def _prepare(ctx, w):
         t = L.apply_step(ctx, "root_attach", t)
     t = L.apply_step(ctx, w["marker"], t)
     marked = L.real_spec(t)
-    if tg.wf_errors(t) or not L.head_children_ok(marked):
-        raise Skip()        # C12/C15 are judged elsewhere; here they only provide the input
+    if tg.wf_errors(t):
+        raise Skip()        # C12 is judged elsewhere; here it only provides the input
+    if need_heads and not L.head_children_ok(marked):
+        raise Skip()        # C15 is judged elsewhere; here it only provides the input
     return t, marked
 
 
-def _pipeline(ctx, w):
-    t, marked = _prepare(ctx, w)
+def _pipeline(ctx, w, need_heads=True):
+    t, marked = _prepare(ctx, w, need_heads)
     try:
         r = L.apply_step(ctx, "boyd_split", t)
         r = L.apply_step(ctx, "raising", r)
@@ -81,7 +94,7 @@ def _wf(t, marked, r, err):
 
 
 def c_continuous(ctx, w):
-    t, marked, r, err = _pipeline(ctx, w)
+    t, marked, r, err = _pipeline(ctx, w, need_heads=False)
     b = _wf(t, marked, r, err)
     if b:
         return b
@@ -93,7 +106,7 @@ def c_continuous(ctx, w):
 
 
 def c_tokens_labels(ctx, w):
-    t, marked, r, err = _pipeline(ctx, w)
+    t, marked, r, err = _pipeline(ctx, w, need_heads=False)
     b = _wf(t, marked, r, err)
     if b:
         return b
@@ -107,7 +120,7 @@ def c_tokens_labels(ctx, w):
 
 
 def c_continuous_unchanged(ctx, w):
-    t, marked, r, err = _pipeline(ctx, w)
+    t, marked, r, err = _pipeline(ctx, w, need_heads=False)
     if not L.is_continuous(marked):
         raise Skip()
     b = _wf(t, marked, r, err)
@@ -191,6 +204,47 @@ def _plain_spec(shape, rng):
     return top
 
 
+# categories of the two documented rule presets (trees/transformconst.py; own copy: they are the
+# input domain "head assignments via the rule presets", not an expectation) + one without a rule
+PRESET_CATS = {
+    "negra": ["S", "VP", "VZ", "NP", "AP", "PP", "CO", "AVP", "AA", "CNP", "CAP", "CPP", "CS", "CVP",
+              "CVZ", "CAVP", "MPN", "NM", "CAC", "CH", "MTA", "CCP", "DL", "ISU", "QL", "CD", "NN",
+              "NR", "XY"],
+    "ptb": ["ADJP", "ADVP", "CONJP", "FRAG", "INTJ", "LST", "NAC", "PP", "PRN", "PRT", "QP", "RRC",
+            "S", "SBAR", "SBARQ", "SINV", "SQ", "UCP", "VP", "WHADJP", "WHADVP", "WHNP", "WHPP", "XY"],
+}
+PRESET_POS = {
+    "negra": ["NN", "NE", "VVFIN", "VVPP", "VVINF", "VAFIN", "ART", "APPR", "ADJA", "ADJD", "ADV",
+              "CARD", "PTKZU", "PROAV", "$,"],
+    "ptb": ["NN", "NNS", "NNP", "VB", "VBD", "VBN", "MD", "IN", "TO", "DT", "JJ", "RB", "CC", "CD",
+            "WDT", "RP", ","],
+}
+
+
+def _category_spec(shape, rng, preset, cat):
+    """every discontinuous constituent is labelled `cat`, the others with categories of the
+    preset, tokens with POS tags its rules mention; edges all '--', no unary nodes"""
+    def build(sh):
+        if isinstance(sh, int):
+            return tg.leaf_spec(sh, rng.choice(L.WORDS_PLAIN + [","]), rng.choice(PRESET_POS[preset]))
+        disc = len(tg.runs_of_set(tg.shape_leaves(sh))) > 1
+        return tg.node_spec(cat if disc else rng.choice(PRESET_CATS[preset]), [build(c) for c in sh])
+    top = tg.node_spec("VROOT", [build(c) for c in shape])
+    top["sid"] = 1
+    return top
+
+
+def _category_specs(rng, full_n, sampled_n, sample_k):
+    for n in range(3, sampled_n + 1):
+        for sh in tg.shapes(n):
+            if tg.shape_is_continuous(sh):
+                continue
+            for preset in ("negra", "ptb"):
+                cats = PRESET_CATS[preset] if n <= full_n else rng.sample(PRESET_CATS[preset], sample_k)
+                for cat in cats:
+                    yield preset, _category_spec(sh, rng, preset, cat)
+
+
 def _head_assignments(spec):
     """every choice of one head child per constituent (lists of child indices in preorder)"""
     import itertools
@@ -245,6 +299,13 @@ def generate(ctx):
                     k = _nt(w, base)
                     for c in CLAUSES:
                         yield c, w, k
+    for preset, spec in _category_specs(rng, b["preset_categories_shapes_n"],
+                                        b["preset_categories_sampled_n"], b["preset_categories_sample_k"]):
+        for ra in (False, True):
+            w = {"spec": spec, "ra": ra, "marker": "mark_heads_by_rules:" + preset}
+            k = _nt(w, spec)
+            for c in CLAUSES:
+                yield c, w, k
     for _ in range(b["random_trees"]):
         n = rng.randint(2, b["random_max_n"])
         spec = L.decorate(tg.random_shape(rng, n, discont=0.7), rng, "mix", punct_p=0.2, unary_p=0.25)
